@@ -45,6 +45,8 @@ func main() {
 		os.Exit(2)
 	}
 	switch os.Args[1] {
+	case "table":
+		writeTypeTable(os.Args[2], os.Args[3])
 	case "gen":
 		seed, _ := strconv.ParseUint(os.Args[3], 10, 64)
 		n, _ := strconv.Atoi(os.Args[4])
@@ -59,6 +61,8 @@ func main() {
 			genDloop(seed, n, os.Args[5])
 		case "enum", "denum":
 			genEnum(os.Args[2], n, os.Args[5])
+		case "types":
+			genTypes(os.Args[5])
 		default:
 			gen(os.Args[2], seed, n, os.Args[5])
 		}
@@ -74,6 +78,8 @@ func main() {
 			oracleRecv(os.Args[3], os.Args[4])
 		case "dloop":
 			oracleDloop(os.Args[3], os.Args[4])
+		case "types":
+			oracleTypes(os.Args[3], os.Args[4])
 		default:
 			oracle(os.Args[2], os.Args[3], os.Args[4])
 		}
@@ -228,6 +234,8 @@ func execOps(stream, in, outp string) {
 			out.Line(pr.apply(f))
 		case "recv":
 			out.Line(applyRecv(f))
+		case "types":
+			out.Line("ok")
 		default:
 			out.Line(s.apply(f))
 		}
